@@ -184,7 +184,7 @@ def pmap(fn: Callable, items: Iterable, *, chunksize: int = 1, jobs: Optional[in
     ctx = mp.get_context('fork')
     chunks = [items[i:i + chunksize] for i in range(0, len(items), chunksize)]
     # (a ProcessPoolExecutor notices a worker that dies - a multiprocessing.Pool would wait for ever)
-    ex = ProcessPoolExecutor(max_workers=min(jobs, len(chunks)), mp_context=ctx)
+    ex = ProcessPoolExecutor(max_workers=min(jobs, len(chunks)), mp_context=ctx, initializer=_worker_init)
     try:
         futs = [ex.submit(_pool_chunk, fn, ch) for ch in chunks]
         for fut in as_completed(futs):
@@ -203,6 +203,20 @@ def pmap(fn: Callable, items: Iterable, *, chunksize: int = 1, jobs: Optional[in
                 p.terminate()
             except Exception:  # noqa
                 pass
+
+
+def _worker_init():
+    # code under test that runs away inside a (virtual) worker - an endless loop that keeps
+    # allocating - must end in a MemoryError inside that execution, not in the OOM killer taking
+    # the checker's process
+    try:
+        import resource
+        limit = 2 * 1024 ** 3
+        soft, hard = resource.getrlimit(resource.RLIMIT_AS)
+        if hard == resource.RLIM_INFINITY or hard > limit:
+            resource.setrlimit(resource.RLIMIT_AS, (limit, hard))
+    except Exception:  # noqa
+        pass
 
 
 def _pool_chunk(fn, chunk):
